@@ -519,3 +519,45 @@ Proof.
   intro H. apply Qmult_integral in H. destruct H as [H|H]; [exact (Hw H)|].
   apply (Qmult_inv_r nm) in Hn. rewrite H in Hn. rewrite Qmult_0_r in Hn. discriminate Hn.
 Qed.
+
+(** the reduced instance [QOr] (every result in lowest terms; what the correspondence runs, for speed) *)
+Lemma Q2R_Qred (x : Q) : Q2R (Qred x) = Q2R x.
+Proof. apply Qeq_eqR, Qred_correct. Qed.
+Ltac q2r_red := repeat (first [rewrite Q2R_Qred | rewrite Q2R_plus | rewrite Q2R_mult | rewrite Q2R_minus
+                              | rewrite Q2R_opp | rewrite Q2R_0 | rewrite Q2R_1 | rewrite Q2R_half
+                              | rewrite Q2R_half' | rewrite Q2R_two' | rewrite Q2R_inject_Z]).
+
+Lemma mie_assemble_Qr_R (A : asm Q) pref erad ct st cp sp ex ey :
+  cvQ2R (mie_assemble QOr A pref erad ct st cp sp ex ey)
+  = mie_assemble RO (asmQ2R A) (cQ2R pref) (cQ2R erad) (Q2R ct) (Q2R st) (Q2R cp) (Q2R sp) (Q2R ex) (Q2R ey).
+Proof.
+  destruct A as [[[a11r a11i] [a12r a12i]] [[a21r a21i] [a22r a22i]]], pref as [pr pi], erad as [er ei].
+  unfold mie_assemble, incfield, calc_scat_field, fieldstocart, radial_to_cart, cv_add, cv_scale,
+    cadd, cmul, cscale, cneg, cvQ2R, cQ2R, asmQ2R, QOr; cbn [fst snd add mul sub opp zero one RO].
+  cv_eq ltac:(q2r_red; reflexivity).
+Qed.
+
+Lemma mielens_assemble_Qr_R (I0 I2 : cplx Q) cp sp cg sg K :
+  cvQ2R (mielens_assemble QOr I0 I2 cp sp cg sg K)
+  = mielens_assemble RO (cQ2R I0) (cQ2R I2) (Q2R cp) (Q2R sp) (Q2R cg) (Q2R sg) (cQ2R K).
+Proof.
+  destruct I0 as [i0r i0i], I2 as [i2r i2i], K as [kr ki].
+  unfold mielens_assemble, two, czero, cv_add, cv_scale, cadd, cmul, cscale, cneg, cvQ2R, cQ2R, QOr;
+    cbn [fst snd add mul sub opp zero one inv ofZ RO].
+  cv_eq ltac:(q2r_red; reflexivity).
+Qed.
+
+Lemma cv_mul_Qr_R (ph : cplx Q) (E : cvec3 Q) : cvQ2R (cv_mul QOr ph E) = cv_mul RO (cQ2R ph) (cvQ2R E).
+Proof.
+  destruct ph as [pr pi]. destruct E as [[[a b] [c d]] [e f]].
+  unfold cv_mul, cmul, cvQ2R, cQ2R, QOr; cbn [fst snd add mul sub opp RO]. cv_eq ltac:(q2r_red; reflexivity).
+Qed.
+
+(** mie_field as executed: a/nrm is Qred (a * Qred (/ nrm)) *)
+Lemma mie_field_Qr_R (A : asm Q) pref erad ct st cp sp ph a b nrm : ~ nrm == 0 ->
+  cvQ2R (mie_field QOr A pref erad ct st cp sp ph a b nrm)
+  = mie_field RO (asmQ2R A) (cQ2R pref) (cQ2R erad) (Q2R ct) (Q2R st) (Q2R cp) (Q2R sp) (cQ2R ph) (Q2R a) (Q2R b) (Q2R nrm).
+Proof.
+  intros Hn. unfold mie_field. rewrite cv_mul_Qr_R, mie_assemble_Qr_R. f_equal.
+  unfold QOr; cbn [mul inv RO]. f_equal; rewrite Q2R_Qred, Q2R_mult, Q2R_Qred, Q2R_inv by exact Hn; reflexivity.
+Qed.
